@@ -21,7 +21,7 @@ below 2^64 (`bytes_held`'s `saturating_add` never saturates), and for contiguity
 stated contract, enforced by the code's `debug_assert!`: in the dev profile it needs no hypothesis).
 
 clause → theorem
-* fact the proofs rest on ........................................ `evict_keep_one_fact`
+* facts the proofs rest on ....................................... `evict_keep_one_fact`, `resume_cap_fact`, `advance_fact`, `defaults_fact`
 * ring = suffix of the pushes since the last advance (oldest first, bodies verbatim) `ring_is_suffix`
 * ring contiguous under abutting pushes / always in the dev profile . `ring_contiguous`, `ring_contiguous_dev`
 * bytes_held = Σ wire; > 1 chunk only within capacity (capacity 0 too)  `ring_bounded`
@@ -29,6 +29,7 @@ clause → theorem
 * resume accepted ⇔ ¬cancelled ∧ current file ∧ boundary/edge/0-on-empty `resume_accept_iff`
 * accepted ⇒ replay tail starts at the offset, contiguous, ends at the newest chunk, empty only at the edge `replay_gapless`
 * … and stays so until the next push/advance .................... `replay_stable`
+* end to end: the tail is a suffix of the pushes since the last advance (byte-identical) `replay_byte_identical`
 * accepted resume installs peer and pending; acked only moves within (acked, sent] `resume_installs_peer_and_pending`
 * reconnect hands the pending resume over exactly once ........... `reconnect_consumes_once`
 * advance empties ring, resets offsets, discards pending ......... `advance_clears_ring_and_pending`
@@ -41,6 +42,17 @@ abbrev F : Facts := Gen.transferFacts
 
 /-- The eviction loop stops while one chunk is left (`&& self.chunks.len() > 1`). -/
 theorem evict_keep_one_fact : F.evictKeepOne = true := by decide
+
+/-- `request_resume`'s implicit ACK is capped by `sent_offset`; `advance_to_file` drops the pending resume
+unconditionally and leaves `cancelled` alone; `wait_for_reconnect` tests `cancelled` first. -/
+theorem resume_cap_fact : F.resumeCap = true := by decide
+theorem advance_fact : F.advanceDropsPending = true ∧ F.advanceKeepsCancel = true := by decide
+
+/-- `TransferControl::new(w)` builds the ring with `DEFAULT_REPLAY_RING_BYTES`, and that default is at least the
+default window, so with default settings a whole window of in-flight chunks is retained for replay; both fit u64. -/
+theorem defaults_fact :
+    Gen.newUsesDefaultRing = true ∧ Gen.defaultWindowBytes ≤ Gen.defaultReplayRingBytes ∧
+    0 < Gen.defaultWindowBytes ∧ Gen.defaultReplayRingBytes < U64 := by decide
 
 /-- The ring always is a suffix of the chunks pushed since the last `advance_to_file` — eviction is
 oldest-first and never alters a retained chunk (offset, length, flag and wire body are the pushed ones).
@@ -125,7 +137,7 @@ theorem replay_gapless (m : OvMode) (s : State) (p file off : Nat) (hp : s.poiso
   have hb := ((Transfer.resume_accept_iff (f := F) (m := m) s p file off hp hedge).mp hacc).2.2
   have hch : (step F m s (.requestResume p file off)).1.chunks = s.chunks := (step_chunks_other s _ rfl).1
   have hpo : (step F m s (.requestResume p file off)).1.poisoned = false := by
-    rw [resume_effect s p file off hacc]; exact hp
+    rw [resume_effect resume_cap_fact s p file off hacc]; exact hp
   simp only [hch]
   refine ⟨?_, replay_tail hc hb⟩
   rw [step_replayFrom _ _ hpo, hch]
@@ -136,6 +148,25 @@ example : Contig exState.chunks ∧ ∀ c, exState.chunks.getLast? = some c → 
   simp [exState] at hc
   subst hc
   decide
+
+/-- End to end, for a whole history from a fresh control (the entry points users call): if after any abutting
+history a resume is accepted at `off`, then what `replay_chunks_from(off)` offers is a suffix of the chunks the
+producer pushed since the last file advance — the same chunks, bodies byte-identical, nothing missing up to the
+last push — and it starts at `off`. -/
+theorem replay_byte_identical (m : OvMode) (window capacity : Nat) (ops : List Op) (p file off : Nat)
+    (hab : abutsAllB F m (init window capacity) ops = true)
+    (hp : (run F m (init window capacity) ops).poisoned = false)
+    (hedge : ∀ c, (run F m (init window capacity) ops).chunks.getLast? = some c → c.offset + c.dataLen < U64)
+    (hacc : (step F m (run F m (init window capacity) ops) (.requestResume p file off)).2 = .resumeOk off) :
+    let tail := replayFrom (run F m (init window capacity) ops).chunks off
+    (∃ earlier, runLog F m (init window capacity) [] ops = earlier ++ tail) ∧
+    (∀ h, tail.head? = some h → h.offset = off) ∧ Contig tail := by
+  obtain ⟨ev, hev⟩ := ring_is_suffix m window capacity ops
+  have hc := ring_contiguous m window capacity ops hab
+  have hb := ((Transfer.resume_accept_iff (f := F) (m := m) _ p file off hp hedge).mp hacc).2.2
+  obtain ⟨⟨before, hbef, _⟩, hct, hhead, _, _⟩ := replay_tail hc hb
+  refine ⟨⟨ev ++ before, ?_⟩, hhead, hct⟩
+  rw [hev, List.append_assoc, ← hbef]
 
 /-- The tail offered for replay does not change until the next `push_replay` or `advance_to_file`. -/
 theorem replay_stable (m : OvMode) (s : State) (ops : List Op) (h : ∀ op ∈ ops, isPushOrAdvance op = false)
@@ -149,7 +180,7 @@ theorem resume_installs_peer_and_pending (m : OvMode) (s : State) (p file off : 
     (step F m s (.requestResume p file off)).1 =
       { s with peer := some p, pending := some off,
                acked := if off > s.acked ∧ off ≤ s.sent then off else s.acked } :=
-  resume_effect s p file off hacc
+  resume_effect resume_cap_fact s p file off hacc
 
 /-- `wait_for_reconnect` hands a pending resume to the producer exactly once: the first wait returns it and
 clears the slot, the next one (nothing new having arrived) times out. -/
@@ -168,10 +199,10 @@ theorem advance_clears_ring_and_pending (m : OvMode) (s : State) (n : Nat) (hp :
     (step F m s (.advance n)).1 =
       { s with file := n, sent := 0, acked := 0, chunks := [], bytesHeld := 0, pending := none } ∧
     (∀ o, (step F m (step F m s (.advance n)).1 .waitReconnect).2 ≠ .reconnResume o) := by
-  refine ⟨by simp [step, hp], ?_⟩
+  refine ⟨by simp [step, hp, advance_fact.1, advance_fact.2], ?_⟩
   intro o
-  simp only [step, hp, if_false, Bool.false_eq_true]
-  cases s.cancelled <;> simp
+  simp only [step, hp, if_false, Bool.false_eq_true, advance_fact.1, advance_fact.2, if_true]
+  cases s.cancelled <;> cases F.reconnCancelFirst <;> simp
 
 /-- Every method body takes the mutex exactly once (fact re-extracted on every run), so concurrent callers
 produce an interleaving of whole calls, i.e. a sequential history, and the ring theorems — stated for every
